@@ -108,6 +108,8 @@ class ThermohydraulicsThermalSolver:
         """
         if resetters is None:
             resetters = []
+        if decorator is None:
+            decorator = lambda x, n: x
 
         # Setup
         self.receiver = model
